@@ -3,3 +3,4 @@ import SpVerif.Model.Naming
 import SpVerif.Model.BoolFlag
 import SpVerif.Drive.Naming
 import SpVerif.Props.C12
+import SpVerif.Props.C10
